@@ -124,7 +124,8 @@ pub fn run_history(base: &Path, h: &History, prop: Prop) -> Result<Stats, Fail> 
         let events = if i == 0 { vec![] } else { w.set_project(&step.project) };
         let before = w.snapshot();
         let check_min = prop == Prop::C18 && step.mode == Mode::SameSession && w.state.is_some() && clean;
-        if check_min {
+        let aged = check_min || (prop == Prop::C17 && !before.files.is_empty());
+        if aged {
             w.age_files();
         }
         let fault = step.fault.map(|(k, t)| fault_plan(k, t));
@@ -229,6 +230,10 @@ pub fn run_history(base: &Path, h: &History, prop: Prop) -> Result<Stats, Fail> 
                         }
                         if before.empty_dirs != after.empty_dirs {
                             st.labels.push("failed-compile-changed-empty-directories".into());
+                        }
+                        if aged && !w.touched_since_aging().is_empty() {
+                            // same bytes, newer modification time: recorded, not a violation
+                            st.labels.push("failed-compile-rewrote-files-with-identical-content(mtime)".into());
                         }
                     }
                 }
